@@ -1,6 +1,7 @@
 package main
 
 import (
+	"verif/harness/internal/c09"
 	"verif/harness/internal/c18"
 	"verif/harness/internal/c12"
 	"verif/harness/internal/c11"
@@ -11,6 +12,8 @@ import (
 )
 
 func init() {
+	checks["C09"] = c09.Run
+	workers["c09"] = c09.Worker
 	checks["C18"] = c18.Run
 	workers["c18"] = c18.Worker
 	checks["C12"] = c12.Run
